@@ -19,4 +19,4 @@ Lemma pin_special_IsPresent_ok : pin_special_IsPresent = "bfccc0cb5b5d1593". Pro
 Lemma pin_special_IsTimestamp_ok : pin_special_IsTimestamp = "eef42669ced462e4". Proof. reflexivity. Qed.
 Lemma pin_choose_loop_ok : pin_choose_loop = "c823d91d7cd2eb0a". Proof. reflexivity. Qed.
 Lemma pin_choose_head_ok : pin_choose_head = "1e9d7c1bc053fc52". Proof. reflexivity. Qed.
-Lemma pin_choice_state_ok : pin_choice_state = "a351dd5264665b33". Proof. reflexivity. Qed.
+Lemma pin_choice_state_ok : pin_choice_state = "1c71febcc7a701c9". Proof. reflexivity. Qed.
